@@ -26,7 +26,7 @@ PROFILE = {
     "p_margined": 0.75, "p_observe_every": 0.5, "p_frictionless": 0.1, "min_contracts": 2, "p_whole_lots": 0.15,
     "motifs": [(0.3, gen_acct.motif_margin_call), (0.15, gen_acct.motif_flip),
                (0.15, gen_acct.motif_add_margined_under_spread), (0.1, gen_acct.motif_spot_multiplier),
-               (0.15, gen_acct.motif_near_close), (0.15, gen_acct.motif_one_sided_liquidation_quote)],
+               (0.15, gen_acct.motif_near_close), (0.15, gen_acct.motif_one_sided_liquidation_quote), (0.12, gen_acct.motif_zero_liquidation_side)],
 }
 
 
